@@ -65,9 +65,29 @@ def _handle_expression(ctx) -> FunctionInfo:
     return m
 
 
+# children that Python evaluates only under a condition (or not at the point of the expression)
+CONDITIONAL = {
+    "IfExp": {"body", "orelse"},
+    "BoolOp": {"values"},
+    "Lambda": {"body"},
+    "ListComp": {"elt", "generators"},
+    "SetComp": {"elt", "generators"},
+    "DictComp": {"key", "value", "generators"},
+    "GeneratorExp": {"elt", "generators"},
+}
+
+
 def _processed_fields(arm_body: List[ast.stmt], subj: str, emitters: Set[str]) -> Dict[str, ast.AST]:
-    """fields of the subject node that the arm rebuilds from an emitting call"""
+    """fields of the subject node that the arm rebuilds from an emitting call;
+    the key '*' means: every field (generic setattr over the node's fields)"""
     out: Dict[str, ast.AST] = {}
+    for s in A.walk_no_nested(ast.Module(arm_body, [])):
+        if isinstance(s, ast.Call) and isinstance(s.func, ast.Name) and s.func.id == "setattr" and len(s.args) == 3 and A.unparse(s.args[0]) == subj:
+            if any(isinstance(c, ast.Call) and isinstance(c.func, ast.Attribute) and c.func.attr in emitters for c in ast.walk(s.args[2])):
+                if isinstance(s.args[1], ast.Constant):
+                    out[str(s.args[1].value)] = s
+                else:
+                    out["*"] = s
     for s in A.walk_no_nested(ast.Module(arm_body, [])):
         if isinstance(s, ast.Assign):
             for t in s.targets:
@@ -104,7 +124,12 @@ def lower1(ctx) -> List[Ob]:
             if order is None:
                 out.append(unresolved("LOWER-1", he.qualname, key, where, f"evaluation order of ast.{cls} unknown to the checker"))
                 continue
+            if "*" in proc:
+                proc = {f: proc["*"] for f in order}
             hazards = []
+            for f in proc:
+                if f in CONDITIONAL.get(cls, ()):
+                    hazards.append(f"'{f}' of ast.{cls} is evaluated only conditionally, but its statements are hoisted into the enclosing block and run unconditionally")
             for f in proc:
                 if f not in order:
                     continue
